@@ -455,6 +455,8 @@ def run(ck):
                                     cfgc = dict(BASE, role=role, fbd=fbd, max_msg=lim_msg, max_frame=lim_frame, api=api)
                                     if style:
                                         cfgc["config_style"] = style
+                                    if arng.random() < 0.34:
+                                        cfgc["factory_after"] = {"maxMessagePayloadSize": 0, "maxFramePayloadSize": 0, "failByDrop": not fbd}
                                     a, b = sorted((arng.randint(1, len(stream) - 1), arng.randint(1, len(stream) - 1)))
                                     variants = [("whole", [stream]), ("cuts", [stream[:a], stream[a:b], stream[b:]])]
                                     if fw == "aio":
@@ -483,7 +485,8 @@ def run(ck):
                     continue      # the mixin handing on what its hooks were given: same violation, one key
                 ck.violation(key if key.startswith("config/") else f"recv-api/{m['api']}/" + key,
                              f"[{fw}] application uses the {m['api']} receive API, limits msg={c['max_msg']} frame={c['max_frame']} "
-                             f"({c.get('config_style') or 'one setProtocolOptions call'}), {len(m['sizes'])} messages of sizes {m['sizes']}"
+                             f"({c.get('config_style') or 'one setProtocolOptions call'}{', factory reconfigured after the handshake' if c.get('factory_after') else ''}), "
+                             f"{len(m['sizes'])} messages of sizes {m['sizes']}"
                              f"{' (two fragments each)' if m['frag'] else ''}, {m['variant']}: {what}",
                              {"fw": fw, "case": c, "observed": r, "grid": m}, found_input=True)
             failed = any(e[0] == "drop" for e in r["events"]) or any(e[0] == "sendclose" and e[1] == 1009 for e in r["events"])
@@ -514,9 +517,14 @@ def run(ck):
                             ops.insert(5, dict(V, len=L + 1, kind="flat", seed=2))       # uncompressed path: exact boundary
                         for j, o in enumerate(ops):
                             o["binary"] = j % 2 == 0
-                        sa_cases.append(dict(BASE, role=role, max_msg=L, pmc=pmc, chunks=[], nolost=True, sends=ops))
-                        sa_meta.append(dict(fn="sendMessage" if api == "message" else "sendPreparedMessage",
-                                            path="plain" if not pmc else ("pmc+doNotCompress" if dnc else "pmc"), L=L, pmc=pmc))
+                        for after in (None, {"maxMessagePayloadSize": 0}, {"maxMessagePayloadSize": 7 * L}):
+                            # the limits are those of the connection: reconfiguring the factory afterwards changes nothing here
+                            if after and L == 126:
+                                continue
+                            sa_cases.append(dict(BASE, role=role, max_msg=L, pmc=pmc, chunks=[], nolost=True, sends=ops,
+                                                 **({"factory_after": after} if after else {})))
+                            sa_meta.append(dict(fn="sendMessage" if api == "message" else "sendPreparedMessage",
+                                                path="plain" if not pmc else ("pmc+doNotCompress" if dnc else "pmc"), L=L, pmc=pmc))
         sa_res = ck.run_impl("ws_recv.py", {"fw": fw, "cases": sa_cases}, nvx=False, timeout=600)["results"]
         ck.evaluations += len(sa_cases)
         ck.note_cases(0, (json.dumps([fw, "send", c["role"], c["pmc"], c["max_msg"], [(o["api"], o["dnc"], o["fragment"], o["len"], o["kind"]) for o in c["sends"]]])
@@ -525,6 +533,8 @@ def run(ck):
             for o in c["sends"]:
                 ck.bump(f"send-api:{send_fn(o)}:{send_path(c, o)}:{'over' if send_over(c, o) else 'within'}")
             for key, what in judge_sends(fw, c, r):
+                if c.get("factory_after"):
+                    key, what = key + "/factory-reconfigured-later", what + f" (after factory.setProtocolOptions({c['factory_after']}) on the established connection)"
                 ck.violation(key, what, {"fw": fw, "case": c, "observed": brief_sends(r)}, found_input=True)
             send_model.append((fw, c, r))
         # frame-wise sending (beginMessage / sendMessageFrame / endMessage, beginMessageFrame / sendMessageFrameData): the message
